@@ -401,6 +401,11 @@ const STRS: &[&str] = &[
 ];
 
 fn s(rng: &mut Rng) -> String {
+    if rng.chance(1, 60) {
+        // cross buffer-size thresholds now and then
+        let n = *rng.pick(&[70usize, 300, 9000]);
+        return "long <&> value ".chars().cycle().take(n).collect();
+    }
     rng.pick(STRS).to_string()
 }
 fn os(rng: &mut Rng) -> Option<String> {
